@@ -232,9 +232,17 @@ var prop = vh.Define("C02", "roundtrip", func(c Case, r *vh.R) {
 		return
 	}
 
-	// ---- verdicts
+	// ---- verdicts (payloads obtained before the write are judged only now, after other
+	// exchanges have been verified in between: a returned payload must not alias reused state)
+	sxgkit.Disturb()
+	after := make([]verdict, len(times))
 	for i, t := range times {
 		p, ok := sxgkit.Verify(e2, t, 0, fetch)
+		after[i] = verdict{ok, p}
+	}
+	sxgkit.Disturb()
+	for i, t := range times {
+		p, ok := after[i].p, after[i].ok
 		if ok != before[i].ok {
 			_, _, lg := sxgkit.VerifyLog(e2, t, fetch)
 			r.Failf("verdict-changed", "Verify at t=%d (date=%d expires=%d): before write %v, after read %v; log after: %s", t, s.Date, s.Expires, before[i].ok, ok, lg)
